@@ -133,7 +133,10 @@ Judge ==
   /\ JTerminal
   /\ LET v == Verdict IN
      /\ PrintT(<<"VERDICT", Rec.rid, v[1], v[2], v[3], off>>)
-     /\ learnt' = IF v[1] = "accept" /\ st = "ok" /\ Rec.out = "msg" THEN NewLabels @@ learnt ELSE learnt
+     /\ learnt' = IF v[1] = "accept" /\ st = "ok" /\ Rec.out = "msg" /\ Rec.lbl
+                  THEN LET nl == NewLabels IN
+                       IF DOMAIN nl # {} /\ PrintT(<<"LEARNT", [k \in DOMAIN nl |-> nl[k]]>>) THEN nl @@ learnt ELSE learnt
+                  ELSE learnt
   /\ rid' = rid + 1
   /\ IF rid + 1 <= Len(Records)
      THEN LoadNextSt(PayloadOfRec(Records[rid + 1]), StartOfRec(Records[rid + 1]))
